@@ -408,7 +408,10 @@ impl Property for C14 {
             .to_string()
     }
     fn assumptions(&self) -> Vec<String> {
-        vec!["<std>/cpu/6502.asm is the library file used as the valid <std> target (rules only, no output)".into()]
+        vec![
+            "<std>/cpu/6502.asm is the library file used as the valid <std> target (rules only, no output)".into(),
+            "a cycle that runs through a #once file and a library file included twice are run but not asserted (the statement does not say which rule wins)".into(),
+        ]
     }
     fn setup(&self, _tier: Tier) -> Result<(), String> {
         realbin::build(false).map(|_| ())
